@@ -101,7 +101,7 @@ pub fn specs() -> Vec<CheckSpec> {
             engine: "tri",
             level: "exploration",
             owns: &["flavour-diff"],
-            runs: (1200, 60_000),
+            runs: (2500, 60_000),
             rule: "a case = one program (writes with option combinations, reads, extractions, removals, listing, damage steps between ops) executed three times on three fresh caches through the pure sync, async-std and tokio flavours; per-step result records and the final decoded caches must agree. Non-trivial = program has >= 3 API steps incl. >= 1 write; distinct by program hash. Programs include clear followed by further writes, declared integrities of other algorithms (true and false digests, multi-hash), sizes off by one, garbage lines and foreign records with unparsable integrity in buckets",
             assumptions: A_COMMON,
         },
